@@ -280,8 +280,10 @@ class Matrix:
             return self
 
         if self._cached_submatrix is None or (rows != self._cached_rows).any() or (cols != self._cached_cols).any():
-            self._cached_rows = rows
-            self._cached_cols = cols
+            # keep private copies: `rows` and `cols` may be the caller's own
+            # arrays, which can be modified in place between calls
+            self._cached_rows = rows.copy()
+            self._cached_cols = cols.copy()
             self._cached_submatrix = self._submatrix(rows, cols)
 
         return self._cached_submatrix
